@@ -94,6 +94,90 @@ def action : Action → Bool
 /-- `Counter::validate` -/
 def counter (c : Counter) : Bool := optDist c.dist
 
+/-! ### The three range tests of `Machine::validate` / `State::validate`
+
+The tests on machine fractions, transition probabilities and per-vector sums are routed
+through three named functions so that a change of the comparison style in the code is
+mirrored by changing `fracBad`, `probBad`, `sumBad` below (one line each).
+
+* `…Cur`   : the code as it is today: `x < 0.0 || x > 1.0`, `p <= 0.0 || p > 1.0`,
+             `sum <= 0.0 || sum > 1.0`.  Every comparison with NaN is false, so NaN passes.
+* `…Fixed` : the NaN-rejecting style `!(x >= 0.0 && x <= 1.0)`, `!(p > 0.0 && p <= 1.0)`,
+             `!(sum > 0.0 && sum <= 1.0)`.
+-/
+
+/-- `x < 0.0 || x > 1.0` (machine.rs) -/
+def fracBadCur (x : FV) : Bool := lt x zero || gt x one
+/-- `t.1 <= 0.0 || t.1 > 1.0` (state.rs) -/
+def probBadCur (p : FV) : Bool := le p zero || gt p one
+/-- `sum <= 0.0 || sum > 1.0` (state.rs) -/
+def sumBadCur (s : FV) : Bool := le s zero || gt s one
+
+/-- `!(x >= 0.0 && x <= 1.0)` -/
+def fracBadFixed (x : FV) : Bool := !(ge x zero && le x one)
+/-- `!(p > 0.0 && p <= 1.0)` -/
+def probBadFixed (p : FV) : Bool := !(gt p zero && le p one)
+/-- `!(sum > 0.0 && sum <= 1.0)` -/
+def sumBadFixed (s : FV) : Bool := !(gt s zero && le s one)
+
+/-- the three range tests as a parameter of the validation model -/
+structure Checks where
+  fracBad : FV → Bool
+  probBad : FV → Bool
+  sumBad : FV → Bool
+
+def checksCur : Checks := ⟨fracBadCur, probBadCur, sumBadCur⟩
+def checksFixed : Checks := ⟨fracBadFixed, probBadFixed, sumBadFixed⟩
+
+/-! **MIRROR POINT**: these three definitions say which style /repo uses today
+    (the NaN-rejecting style since fix 65165a2; `…Cur` is the style before that fix). -/
+def fracBad : FV → Bool := fracBadFixed
+def probBad : FV → Bool := probBadFixed
+def sumBad : FV → Bool := sumBadFixed
+
+/-- the tests used by the code today -/
+def checks : Checks := ⟨fracBad, probBad, sumBad⟩
+
+/-- the per-vector loop of `State::validate`: returns the f32 sum, or `none` on error -/
+def transLoopWith (c : Checks) (numStates : Nat) : List Trans → List Nat → FV → Option FV
+  | [], _, sum => some sum
+  | t :: ts, seen, sum =>
+    if t.target ≥ numStates && t.target != STATE_END && t.target != STATE_SIGNAL then none
+    else if seen.contains t.target then none
+    else
+      let p := val32 t.prob
+      if c.probBad p then none
+      else transLoopWith c numStates ts (t.target :: seen) (add f32 sum p)
+
+def transVecWith (c : Checks) (numStates : Nat) (ts : List Trans) : Bool :=
+  match transLoopWith c numStates ts [] zero with
+  | none => false
+  | some sum => !(c.sumBad sum)
+
+/-- `State::validate` -/
+def stateWith (c : Checks) (numStates : Nat) (s : State) : Bool :=
+  s.transitions.all (fun v => match v with
+    | none => true
+    | some ts => transVecWith c numStates ts)
+  && (match s.action with | none => true | some a => action a)
+  && (match s.counterA with | none => true | some c => counter c)
+  && (match s.counterB with | none => true | some c => counter c)
+
+/-- `Machine::validate` -/
+def machineWith (c : Checks) (m : Machine) : Bool :=
+  let pf := val64 m.maxPaddingFrac
+  let bf := val64 m.maxBlockingFrac
+  if c.fracBad pf then false
+  else if c.fracBad bf then false
+  else if m.states.length == 0 then false
+  else if m.states.length > STATE_MAX then false
+  else m.states.all (stateWith c m.states.length)
+
+/-! ### The code as it is today
+
+Written out directly (through `fracBad`, `probBad`, `sumBad`) so that proofs can unfold them
+step by step; `machine_eq_with` ties them to the parametrised model above. -/
+
 /-- the per-vector loop of `State::validate`: returns the f32 sum, or `none` on error -/
 def transLoop (numStates : Nat) : List Trans → List Nat → FV → Option FV
   | [], _, sum => some sum
@@ -102,13 +186,13 @@ def transLoop (numStates : Nat) : List Trans → List Nat → FV → Option FV
     else if seen.contains t.target then none
     else
       let p := val32 t.prob
-      if le p zero || gt p one then none
+      if probBad p then none
       else transLoop numStates ts (t.target :: seen) (add f32 sum p)
 
 def transVec (numStates : Nat) (ts : List Trans) : Bool :=
   match transLoop numStates ts [] zero with
   | none => false
-  | some sum => !(le sum zero || gt sum one)
+  | some sum => !(sumBad sum)
 
 /-- `State::validate` -/
 def state (numStates : Nat) (s : State) : Bool :=
@@ -123,11 +207,40 @@ def state (numStates : Nat) (s : State) : Bool :=
 def machine (m : Machine) : Bool :=
   let pf := val64 m.maxPaddingFrac
   let bf := val64 m.maxBlockingFrac
-  if lt pf zero || gt pf one then false
-  else if lt bf zero || gt bf one then false
+  if fracBad pf then false
+  else if fracBad bf then false
   else if m.states.length == 0 then false
   else if m.states.length > STATE_MAX then false
   else m.states.all (state m.states.length)
+
+theorem transLoop_eq_with (n : Nat) : ∀ (ts : List Trans) (seen : List Nat) (sum : FV),
+    transLoop n ts seen sum = transLoopWith checks n ts seen sum := by
+  intro ts
+  induction ts with
+  | nil => intro _ _; rfl
+  | cons t ts ih =>
+    intro seen sum
+    simp only [transLoop, transLoopWith, ih]
+    rfl
+
+theorem transVec_eq_with (n : Nat) (ts : List Trans) : transVec n ts = transVecWith checks n ts := by
+  unfold transVec transVecWith
+  rw [transLoop_eq_with]
+  rfl
+
+theorem state_eq_with (n : Nat) : state n = stateWith checks n := by
+  funext s
+  unfold state stateWith
+  have : (fun v : Option (List Trans) => match v with | none => true | some ts => transVec n ts) =
+      (fun v => match v with | none => true | some ts => transVecWith checks n ts) := by
+    funext v; cases v <;> simp [transVec_eq_with]
+  rw [this]
+
+/-- today's `Machine::validate` is the parametrised model at today's range tests -/
+theorem machine_eq_with (m : Machine) : machine m = machineWith checks m := by
+  unfold machine machineWith
+  rw [state_eq_with]
+  rfl
 
 /-- `(0.0..=1.0).contains(&x)` -/
 def fracOK (x : F64) : Bool := le zero (val64 x) && le (val64 x) one
